@@ -76,6 +76,20 @@ def kinds(b):
                   lambda ns, ops, prm: ns.ar.Array([3, ops[0]]).assert_eq(ns.ar.Array([3, ops[1]])), lambda v, prm: v[0] == v[1]))
     K.append(Kind("Array.assert_eq(plain entry vs secret)", 2,
                   lambda ns, ops, prm: ns.ar.Array([ops[0], 3]).assert_eq(ns.ar.Array([ops[0], ops[1]])), lambda v, prm: v[1] == 3))
+    # a history with a refusal in it: an assertion with another constant, then the same assertion with the bound given as a float
+    # (refused: "Wrong type for LinComb") and caught, then the assertion proper with the int bound
+    def _after_refusal(nm_):
+        def call(ns, ops, prm):
+            ops[1].assert_le(lim)
+            try:
+                getattr(ops[0], "assert_" + nm_)(float(prm))
+            except Exception:
+                pass
+            getattr(ops[0], "assert_" + nm_)(prm)
+        return call
+    for nm, rel in cmpops:
+        K.append(Kind("assert_%s(x,const) after a refused float bound" % nm, 2, _after_refusal(nm),
+                      (lambda r_: lambda v, prm: v[1] <= lim and r_(v[0], prm))(rel), params=[1, -1]))
     # arrays of different lengths are not equal whatever the entries are (today: refused with ValueError)
     K.append(Kind("Array.assert_eq(longer,shorter)", 2,
                   lambda ns, ops, prm: ns.ar.Array([ops[0], ops[1]]).assert_eq(ns.ar.Array([ops[0]])), lambda v, prm: False))
